@@ -10,16 +10,18 @@
 (* OnlyShipped is the property (the reply is a shipped language or "").       *)
 (* FunctionAgrees ties the machine to NegotiateF, which I18nTable_Trace uses  *)
 (* to report how far the real function agrees with this model.                *)
-(* Impl = "nocheck" (first candidate wins, supported or not) and "fulltag"    *)
+(* impl = "nocheck" (first candidate wins, supported or not) and "fulltag"    *)
 (* (support tested on the primary subtag but the whole tag returned) are the  *)
-(* negative controls.                                                         *)
+(* negative controls, explored in the same run: TLC must find a state of each *)
+(* that violates the body of OnlyShipped (recorded with TLCSet, demanded by   *)
+(* the POSTCONDITION ControlsBite).  Run with one worker.                     *)
 EXTENDS I18nTable, Json
 
-CONSTANTS Impl,         \* "asis" | "nocheck" | "fulltag"
-          Full3         \* TRUE: three-item headers over all Items
+CONSTANTS Full3         \* TRUE: three-item headers over all Items
 
-VARIABLES hdr, pc, n, cands, result
-vars == <<hdr, pc, n, cands, result>>
+VARIABLES impl, hdr, pc, n, cands, result
+vars == <<impl, hdr, pc, n, cands, result>>
+Impls == {"asis", "nocheck", "fulltag"}
 
 Shipped   == {"en", "es", "fr", "ja"}
 Supported == Shipped
@@ -34,7 +36,10 @@ SmallItems == [tag : {<<"e", "n">>, <<"f", "r", "-", "C", "A">>, <<"d", "e">>, <
 Headers == {<<>>} \cup {<<a>> : a \in Items} \cup {<<a, b>> : a, b \in Items}
            \cup {<<a, b, c>> : a, b, c \in (IF Full3 THEN Items ELSE SmallItems)}
 
-Init == hdr \in Headers /\ pc = "parse" /\ n = 1 /\ cands = <<>> /\ result = ""
+Init == /\ TLCSet(8, FALSE) /\ TLCSet(9, FALSE)
+        /\ impl \in Impls /\ hdr \in Headers
+        /\ (impl = "asis" \/ Len(hdr) <= 1)          \* the broken variants only need the shortest headers to be caught
+        /\ pc = "parse" /\ n = 1 /\ cands = <<>> /\ result = ""
 
 ParseItem == /\ pc = "parse"                     \* for _, rawTag := range strings.Split(header, ",")
              /\ IF n > Len(hdr)
@@ -44,32 +49,37 @@ ParseItem == /\ pc = "parse"                     \* for _, rawTag := range strin
                                  THEN Append(cands, [lang |-> Join(Primary(hdr[n].tag)), q |-> QVal(hdr[n].q),
                                                      full |-> Join([k \in 1..Len(hdr[n].tag) |-> LowerCh(hdr[n].tag[k])])])
                                  ELSE cands
-             /\ UNCHANGED <<hdr, result>>
+             /\ UNCHANGED <<impl, hdr, result>>
 
 Sort == /\ pc = "sort"                           \* sort.SliceStable(candidates, quality descending)
         /\ cands' = SortStable(cands) /\ pc' = "select" /\ n' = 1
-        /\ UNCHANGED <<hdr, result>>
+        /\ UNCHANGED <<impl, hdr, result>>
 
 Select == /\ pc = "select"                       \* for _, c := range candidates { if isSupportedLanguage(c.lang) { return c.lang } }
           /\ IF n > Len(cands)
              THEN pc' = "done" /\ UNCHANGED <<n, result>>
-             ELSE CASE Impl = "nocheck" -> result' = cands[n].lang /\ pc' = "done" /\ UNCHANGED n
-                    [] Impl = "fulltag" /\ cands[n].lang \in Supported -> result' = cands[n].full /\ pc' = "done" /\ UNCHANGED n
-                    [] Impl = "asis" /\ cands[n].lang \in Supported -> result' = cands[n].lang /\ pc' = "done" /\ UNCHANGED n
+             ELSE CASE impl = "nocheck" -> result' = cands[n].lang /\ pc' = "done" /\ UNCHANGED n
+                    [] impl = "fulltag" /\ cands[n].lang \in Supported -> result' = cands[n].full /\ pc' = "done" /\ UNCHANGED n
+                    [] impl = "asis" /\ cands[n].lang \in Supported -> result' = cands[n].lang /\ pc' = "done" /\ UNCHANGED n
                     [] OTHER -> n' = n + 1 /\ UNCHANGED <<pc, result>>
-          /\ UNCHANGED <<hdr, cands>>
+          /\ UNCHANGED <<impl, hdr, cands>>
 
 Next == ParseItem \/ Sort \/ Select
 Spec == Init /\ [][Next]_vars
 
-OnlyShipped    == pc = "done" => result \in Shipped \cup {""}
-FunctionAgrees == pc = "done" => result = NegotiateF(hdr, Supported)
+OnlyShippedBody == pc = "done" => result \in Shipped \cup {""}
+OnlyShipped    == impl = "asis" => OnlyShippedBody
+FunctionAgrees == (impl = "asis" /\ pc = "done") => result = NegotiateF(hdr, Supported)
 (* model-level reading of "best match": no supported candidate is strictly preferred to the reply *)
-BestQuality    == pc = "done" =>
+BestQuality    == (impl = "asis" /\ pc = "done") =>
                     LET c == Cands(hdr) IN
                     IF result = "" THEN \A k \in 1..Len(c) : c[k].lang \notin Supported
                     ELSE \E k \in 1..Len(c) : /\ c[k].lang = result
                                               /\ \A j \in 1..Len(c) : c[j].lang \in Supported => c[j].q <= c[k].q
 
-Emit == (pc = "parse" /\ n = 1) => PrintT(ToJson([items |-> hdr]))
+Bites        == /\ (impl = "nocheck" /\ ~OnlyShippedBody) => TLCSet(8, TRUE)     \* listed as an invariant; always TRUE
+                /\ (impl = "fulltag" /\ ~OnlyShippedBody) => TLCSet(9, TRUE)
+ControlsBite == TLCGet(8) = TRUE /\ TLCGet(9) = TRUE                            \* POSTCONDITION
+
+Emit == (impl = "asis" /\ pc = "parse" /\ n = 1) => PrintT(ToJson([items |-> hdr]))
 =============================================================================
